@@ -449,6 +449,17 @@ pub fn check(mut ctx: Ctx, replay: Option<J>) -> ! {
     crate::child::run_in_children_with("c12", &tlc.work_dir, recs.len(), 14, Duration::from_secs(30), &|i| input_of(&recs[i]))
   };
   let mut calls = 0u64;
+  // documents given up after the death budget of the child runner was spent are not judged
+  let skipped: Vec<bool> = results.iter().map(|r| r["skipped"] == true).collect();
+  if skipped.iter().any(|s| *s) {
+    ctx.cov("documents_not_run_after_too_many_deaths", json!(skipped.iter().filter(|s| **s).count()));
+    let mut k = 0;
+    recs.retain(|_| {
+      k += 1;
+      !skipped[k - 1]
+    });
+  }
+  let results: Vec<J> = results.into_iter().filter(|r| r["skipped"] != true).collect();
   for (r, res) in recs.iter_mut().zip(results.iter()) {
     r["count"] = if res["count"].is_i64() { res["count"].clone() } else { json!(count_nodes(&text_of(r))) };
     if let Some(d) = res["death"].as_str() {
